@@ -114,7 +114,8 @@ func genLedgerFacts() (string, error) {
 		{"fsm/account.go", "StateMachine", "AccountVestedAmount"}, {"fsm/account.go", "StateMachine", "AccountLockedAmount"},
 		{"fsm/account.go", "StateMachine", "AccountSpendableAmount"}, {"fsm/account.go", "StateMachine", "clearAccountVestingIfFullyVested"},
 		{"fsm/account.go", "StateMachine", "ValidateAccountAddWithVesting"}, {"fsm/account.go", "StateMachine", "AccountAddWithVesting"},
-		{"fsm/message_helpers.go", "MessageSend", "Check"},
+		{"fsm/message_helpers.go", "MessageSend", "Check"}, {"fsm/message_helpers.go", "MessageSubsidy", "Check"},
+		{"fsm/message_helpers.go", "", "checkChainId"},
 		{"fsm/account.go", "StateMachine", "SetPool"}, {"fsm/account.go", "StateMachine", "SetPools"},
 		{"fsm/account.go", "StateMachine", "MintToPool"}, {"fsm/account.go", "StateMachine", "MintToAccount"},
 		{"fsm/account.go", "StateMachine", "PoolAdd"}, {"fsm/account.go", "StateMachine", "PoolSub"},
